@@ -196,14 +196,14 @@ theorem settleShowdown_len {fl : Rat → Rat} {rc : RakeCfg} {bal : List Int} {t
   exact ⟨by rw [settle_len hs]; simp [hlen], hlen⟩
 
 /-- **raked settlement succeeds** when the ranking lists seats in range, none twice, among them a holder of the largest
-contribution -/
-theorem settleShowdown_total {fl : Rat → Rat} (hfl : C14.FlSpec fl) (rc : RakeCfg) (hf0 : 0 ≤ rc.f) (hf1 : rc.f ≤ 1)
-    (bal : List Int) (hbal : ∀ b ∈ bal, 0 ≤ b) (tiers : List (List Nat)) (rp : Bool)
-    (h1 : ∀ t ∈ tiers, ∀ p ∈ t, p < bal.length) (h2 : tiers.flatten.Nodup)
+contribution (rounding exact up to `B`, contributions at most `B`) -/
+theorem settleShowdown_total_B {fl : Rat → Rat} {B : Int} (hfl : C14.FlSpecB B fl) (rc : RakeCfg) (hf0 : 0 ≤ rc.f)
+    (hf1 : rc.f ≤ 1) (bal : List Int) (hbal : ∀ b ∈ bal, 0 ≤ b) (hB : ∀ b ∈ bal, b ≤ B) (tiers : List (List Nat))
+    (rp : Bool) (h1 : ∀ t ∈ tiers, ∀ p ∈ t, p < bal.length) (h2 : tiers.flatten.Nodup)
     (h3 : ∃ p ∈ tiers.flatten, ∀ q, q < bal.length → getI bal q ≤ getI bal p) :
     ∃ x, settleShowdown fl rc bal tiers rp = .ok x := by
   have hlen := C14.rake_length fl rc bal rp
-  have hle := C14.rake_le_contribution hfl rc bal rp hf0 hf1 hbal
+  have hle := C14.rake_le_contribution_B hfl rc bal rp hf0 hf1 hbal hB
   have hl' : ((bal.zip (rakePerPlayer fl rc bal rp)).map fun (b, r) => b - r).length = bal.length := by
     simp [hlen]
   have hnn : ∀ b ∈ (bal.zip (rakePerPlayer fl rc bal rp)).map (fun (b, r) => b - r), 0 ≤ b := by
@@ -223,10 +223,19 @@ theorem settleShowdown_total {fl : Rat → Rat} (hfl : C14.FlSpec fl) (rc : Rake
     intro q hq
     rw [hl'] at hq
     rw [getI_zip_sub _ _ hlen.symm, getI_zip_sub _ _ hlen.symm]
-    exact C14.order_preserved hfl rc bal rp hf0 hf1 hbal q p hq hp' (hmax q hq)
+    exact C14.order_preserved_B hfl rc bal rp hf0 hf1 hbal hB q p hq hp' (hmax q hq)
   have := C02.settle_eq_spec _ tiers hnn hr
   unfold settleShowdown
   exact ⟨_, by rw [bind_ok]; exact ⟨_, this, rfl⟩⟩
+
+/-- **raked settlement succeeds** when the ranking lists seats in range, none twice, among them a holder of the largest
+contribution -/
+theorem settleShowdown_total {fl : Rat → Rat} (hfl : C14.FlSpec fl) (rc : RakeCfg) (hf0 : 0 ≤ rc.f) (hf1 : rc.f ≤ 1)
+    (bal : List Int) (hbal : ∀ b ∈ bal, 0 ≤ b) (tiers : List (List Nat)) (rp : Bool)
+    (h1 : ∀ t ∈ tiers, ∀ p ∈ t, p < bal.length) (h2 : tiers.flatten.Nodup)
+    (h3 : ∃ p ∈ tiers.flatten, ∀ q, q < bal.length → getI bal q ≤ getI bal p) :
+    ∃ x, settleShowdown fl rc bal tiers rp = .ok x :=
+  settleShowdown_total_B (hfl.toB (sumI bal)) rc hf0 hf1 bal hbal (Pot.mem_le_sumI hbal) tiers rp h1 h2 h3
 
 end Settle
 
@@ -556,11 +565,14 @@ theorem orderHands_total {rankFn : RankFn} {s : State} {players : List Nat} (hb 
       obtain ⟨i, hi, rfl⟩ := List.getElem_of_mem hp
       exact ⟨i, (t2 i).2 (by rw [hl2]; exact hi), by rw [List.getElem?_eq_getElem hi]; rfl⟩
 
-/-- **`get_payouts_and_rake` never fails** on a state `advance_action` can reach -/
-theorem Mid.getPayoutsAndRake_total {env : Env} {cfg : Cfg} {s : State} (h : Mid cfg s) (hv : cfg.Valid)
-    (hfl : C14.FlSpec env.fl) (hrank : RankTotal cfg.game env.rankFn) :
+/-- **`get_payouts_and_rake` never fails** on a state `advance_action` can reach
+(rounding exact up to `B`, at most `B` chips on the table) -/
+theorem Mid.getPayoutsAndRake_total_B {env : Env} {cfg : Cfg} {s : State} (h : Mid cfg s) (hv : cfg.Valid)
+    {B : Int} (hfl : C14.FlSpecB B env.fl) (hB : sumI cfg.startingStacks ≤ B)
+    (hrank : RankTotal cfg.game env.rankFn) :
     ∃ x, s.getPayoutsAndRake env = .ok x := by
   have hn : s.n = cfg.n := h.cfgOf.n
+  have hpB : ∀ b ∈ s.pot, b ≤ B := fun b hb => Int.le_trans (h.chips.pot_le b hb) hB
   have hf0 : 0 ≤ s.rake.f := by rw [h.cfgOf.rake]; exact hv.f_nonneg
   have hf1 : s.rake.f ≤ 1 := by rw [h.cfgOf.rake]; exact hv.f_le_one
   have hplen : s.pot.length = cfg.n := h.chips.pot_len
@@ -580,7 +592,7 @@ theorem Mid.getPayoutsAndRake_total {env : Env} {cfg : Cfg} {s : State} (h : Mid
   unfold State.getPayoutsAndRake
   simp only
   split
-  · obtain ⟨⟨pay, rake⟩, e⟩ := settleShowdown_total hfl s.rake hf0 hf1 s.pot h.chips.pot_nonneg
+  · obtain ⟨⟨pay, rake⟩, e⟩ := settleShowdown_total_B hfl s.rake hf0 hf1 s.pot h.chips.pot_nonneg hpB
       [(List.range s.n).filter fun p => (s.lastActions[p]?).join != some ActType.fold] s.shouldRakePot
       (by intro t ht; rw [List.mem_singleton] at ht; subst ht; exact hlt)
       (by simpa using hnd) (by simpa using hmax)
@@ -602,7 +614,7 @@ theorem Mid.getPayoutsAndRake_total {env : Env} {cfg : Cfg} {s : State} (h : Mid
           show ∀ h ∈ s.hands, h.length = s.game.holeCards
           rw [h.cfgOf.hands, h.cfgOf.game]; exact hv.hole)
         (by show RankTotal s.game env.rankFn; rw [h.cfgOf.game]; exact hrank) hnd
-      obtain ⟨⟨pay, rake⟩, e3⟩ := settleShowdown_total hfl s.rake hf0 hf1 s.pot h.chips.pot_nonneg w
+      obtain ⟨⟨pay, rake⟩, e3⟩ := settleShowdown_total_B hfl s.rake hf0 hf1 s.pot h.chips.pot_nonneg hpB w
         (State.shouldRakePot { s with board := s.board ++ runout })
         (by
           intro t ht p hp
@@ -618,9 +630,17 @@ theorem Mid.getPayoutsAndRake_total {env : Env} {cfg : Cfg} {s : State} (h : Mid
         rw [bind_ok]
         exact ⟨(pay, rake), e3, rfl⟩⟩
 
-/-- **`advance_action` never fails** on a hand in progress whose state satisfies `Mid` -/
-theorem Mid.advanceAction_total {env : Env} {cfg : Cfg} {s : State} (h : Mid cfg s) (hv : cfg.Valid)
-    (hfl : C14.FlSpec env.fl) (hrank : RankTotal cfg.game env.rankFn) (ha : s.action.isSome)
+/-- **`get_payouts_and_rake` never fails** on a state `advance_action` can reach -/
+theorem Mid.getPayoutsAndRake_total {env : Env} {cfg : Cfg} {s : State} (h : Mid cfg s) (hv : cfg.Valid)
+    (hfl : C14.FlSpec env.fl) (hrank : RankTotal cfg.game env.rankFn) :
+    ∃ x, s.getPayoutsAndRake env = .ok x :=
+  h.getPayoutsAndRake_total_B hv (hfl.toB (sumI cfg.startingStacks)) (Int.le_refl _) hrank
+
+/-- **`advance_action` never fails** on a hand in progress whose state satisfies `Mid`
+(rounding exact up to `B`, at most `B` chips on the table) -/
+theorem Mid.advanceAction_total_B {env : Env} {cfg : Cfg} {s : State} (h : Mid cfg s) (hv : cfg.Valid)
+    {B : Int} (hfl : C14.FlSpecB B env.fl) (hB : sumI cfg.startingStacks ≤ B)
+    (hrank : RankTotal cfg.game env.rankFn) (ha : s.action.isSome)
     (hst : s.street < 4) : ∃ s', s.advanceAction env = .ok s' := by
   rw [advanceAction_eq, h.closed]
   cases hc : s.closedSpec with
@@ -636,10 +656,16 @@ theorem Mid.advanceAction_total {env : Env} {cfg : Cfg} {s : State} (h : Mid cfg
     simp only [bind, Except.bind, Bool.not_true, Bool.false_eq_true, if_false, e2]
     unfold State.settleIfShowdown
     split
-    · obtain ⟨x, hx⟩ := m2.getPayoutsAndRake_total hv hfl hrank
+    · obtain ⟨x, hx⟩ := m2.getPayoutsAndRake_total_B hv hfl hB hrank
       rw [hx]
       exact ⟨_, rfl⟩
     · exact ⟨_, rfl⟩
+
+/-- **`advance_action` never fails** on a hand in progress whose state satisfies `Mid` -/
+theorem Mid.advanceAction_total {env : Env} {cfg : Cfg} {s : State} (h : Mid cfg s) (hv : cfg.Valid)
+    (hfl : C14.FlSpec env.fl) (hrank : RankTotal cfg.game env.rankFn) (ha : s.action.isSome)
+    (hst : s.street < 4) : ∃ s', s.advanceAction env = .ok s' :=
+  h.advanceAction_total_B hv (hfl.toB (sumI cfg.startingStacks)) (Int.le_refl _) hrank ha hst
 
 /-! ## §4 the strengthened invariant of reachable states -/
 
@@ -832,9 +858,11 @@ theorem reachable_inv2 {env : Env} (hw : env.w = World.std) {cfg : Cfg} (hv : cf
   | init h => exact construct_inv2 hv h
   | step p ty amt _ hact ih => exact act_inv2 hw hv ih hact
 
-/-- **an accepted action is carried through `advance_action` without any error** -/
-theorem advanceAction_total_of_reachable {env : Env} (hw : env.w = World.std) (hfl : C14.FlSpec env.fl) {cfg : Cfg}
-    (hv : cfg.Valid) (hrank : RankTotal cfg.game env.rankFn) {s s1 : State} (h : Reachable env cfg s)
+/-- **an accepted action is carried through `advance_action` without any error**
+(rounding exact up to `B`, at most `B` chips on the table) -/
+theorem advanceAction_total_of_reachable_B {env : Env} (hw : env.w = World.std) {B : Int}
+    (hfl : C14.FlSpecB B env.fl) {cfg : Cfg} (hv : cfg.Valid) (hB : sumI cfg.startingStacks ≤ B)
+    (hrank : RankTotal cfg.game env.rankFn) {s s1 : State} (h : Reachable env cfg s)
     {p : Int} {ty : Option ActType} {amt : Option Int} (h1 : s.appendAction env.w p ty amt = .ok s1) :
     ∃ s', s1.advanceAction env = .ok s' := by
   have hi := reachable_inv2 hw hv h
@@ -842,7 +870,14 @@ theorem advanceAction_total_of_reachable {env : Env} (hw : env.w = World.std) (h
   have hc := (appendAction_ok.1 h1).1
   obtain ⟨_, t1, _⟩ := appendAction_frame h1
   have m1 := appendAction_mid hv hi.inv hi.mid h1
-  exact m1.advanceAction_total hv hfl hrank (by rw [t1.action]; exact hi.inv.action_some hc)
+  exact m1.advanceAction_total_B hv hfl hB hrank (by rw [t1.action]; exact hi.inv.action_some hc)
     (by rw [t1.street]; exact hi.street_lt hc)
+
+/-- **an accepted action is carried through `advance_action` without any error** -/
+theorem advanceAction_total_of_reachable {env : Env} (hw : env.w = World.std) (hfl : C14.FlSpec env.fl) {cfg : Cfg}
+    (hv : cfg.Valid) (hrank : RankTotal cfg.game env.rankFn) {s s1 : State} (h : Reachable env cfg s)
+    {p : Int} {ty : Option ActType} {amt : Option Int} (h1 : s.appendAction env.w p ty amt = .ok s1) :
+    ∃ s', s1.advanceAction env = .ok s' :=
+  advanceAction_total_of_reachable_B hw (hfl.toB (sumI cfg.startingStacks)) hv (Int.le_refl _) hrank h h1
 
 end CardVerif.Betting
